@@ -58,6 +58,10 @@ struct Spec {
     at_spelling: usize,
     /// `no_deps` (Fn / Mod kinds): the fn has no dependency parameter, the method gets a `&self` the fn knows nothing about
     no_deps: bool,
+    /// TraitStatic: two more async methods with default bodies that no implementor overrides - one with an unused by-value
+    /// argument that has a destructor (an `async fn` moves every argument into its future), one whose tail expression needs
+    /// an unsizing coercion to the declared return type
+    dflt: bool,
 }
 
 /// `reexp` re-exports the attribute (the way `axum::async_trait` / a crate prelude does)
@@ -225,7 +229,13 @@ fn build(spec: &Spec, negative: Option<&str>) -> (String, String) {
             let lt = if lts.is_empty() { String::new() } else { "<'a>".to_string() };
             let sup = if dynamic { ": Sync + 'static" } else { "" };
             let msig = format!("async fn m{lt}(&self{ps_src}){}", spec.ret_decl());
-            src.push_str(&format!("{attr}\n{at}pub trait Tr{sup} {{\n    {msig};\n}}\n"));
+            let dflt_decl = if spec.dflt && !dynamic {
+                src.push_str("use ::core::sync::atomic::{AtomicBool, Ordering::SeqCst};\npub static DROPPED: AtomicBool = AtomicBool::new(false);\npub struct Guard;\nimpl Drop for Guard { fn drop(&mut self) { DROPPED.store(true, SeqCst); } }\n");
+                "    async fn keeps(&self, _g: Guard, (a, mut b): (u8, u8)) -> bool { b += a; rt::yield_once().await; DROPPED.load(SeqCst) }\n    async fn boxed(&self, x: i32) -> Box<dyn ::core::fmt::Debug + Send> { Box::new((x, 7u8)) }\n"
+            } else {
+                ""
+            };
+            src.push_str(&format!("{attr}\n{at}pub trait Tr{sup} {{\n    {msig};\n{dflt_decl}}}\n"));
             src.push_str(&format!("pub struct Rec {{ pub name: String }}\n{at}impl Tr for Rec {{\n    {msig} {}\n}}\n", spec.body("self", hold_rc).replace('\n', "\n    ")));
             if dynamic {
                 src.push_str("pub struct DApp { pub rec: Rec }\nimpl AsRef<dyn Tr> for DApp { fn as_ref(&self) -> &(dyn Tr + 'static) { &self.rec } }\n");
@@ -237,10 +247,16 @@ fn build(spec: &Spec, negative: Option<&str>) -> (String, String) {
             } else {
                 src.push_str(&witness("Tr", "m", want_send_witness, ""));
                 src.push_str(&format!(
-                    "pub fn run() -> Vec<String> {{\n    let mut fails = vec![];\n    let app = ::entrait::Impl::new(Rec {{ name: String::from(\"rn\") }});\n    let _ = rt::take();\n    let direct = format!(\"{{:?}}\", rt::block_on(Tr::m(&*app, {vals})));\n    let t_direct = rt::take();\n    let via = format!(\"{{:?}}\", rt::block_on(Tr::m(&app, {vals})));\n    rt::expect_eq(&mut fails, \"awaited result through Impl<T> vs the provider\", &via, &direct);\n    let t_via = rt::take();\n    rt::expect_eq(&mut fails, \"the body ran to completion exactly once (trace)\", &t_via, &t_direct);\n    if t_direct.len() != 1 {{ fails.push(String::from(\"HARNESS: direct call did not run the body once\")); }}\n    fails\n}}\n"
+                    "pub fn run() -> Vec<String> {{\n    let mut fails = vec![];\n    let app = ::entrait::Impl::new(Rec {{ name: String::from(\"rn\") }});\n    let _ = rt::take();\n    let direct = format!(\"{{:?}}\", rt::block_on(Tr::m(&*app, {vals})));\n    let t_direct = rt::take();\n    let via = format!(\"{{:?}}\", rt::block_on(Tr::m(&app, {vals})));\n    rt::expect_eq(&mut fails, \"awaited result through Impl<T> vs the provider\", &via, &direct);\n    let t_via = rt::take();\n    rt::expect_eq(&mut fails, \"the body ran to completion exactly once (trace)\", &t_via, &t_direct);\n    if t_direct.len() != 1 {{ fails.push(String::from(\"HARNESS: direct call did not run the body once\")); }}\n@DFLT@    fails\n}}\n"
                 ));
+                let dflt_run = if spec.dflt {
+                    "    for through_impl in [false, true] {\n        DROPPED.store(false, SeqCst);\n        let before;\n        let r;\n        if through_impl { let fut = Tr::keeps(&app, Guard, (1, 2)); before = DROPPED.load(SeqCst); r = rt::block_on(fut); } else { let fut = Tr::keeps(&*app, Guard, (1, 2)); before = DROPPED.load(SeqCst); r = rt::block_on(fut); }\n        rt::expect_eq(&mut fails, \"defaulted async method: its unused by-value argument is alive until the future has run (dropped before the first poll, dropped while the body runs)\", &(before, r), &(false, false));\n        if !DROPPED.load(SeqCst) { fails.push(String::from(\"HARNESS: the guard was never dropped\")); }\n    }\n    rt::expect_eq(&mut fails, \"defaulted async method returning a boxed trait object\", &format!(\"{:?}\", rt::block_on(Tr::boxed(&app, 5))), &String::from(\"(5, 7)\"));\n"
+                } else {
+                    ""
+                };
+                src = src.replace("@DFLT@", dflt_run);
             }
-            summary = format!("{attr} {}trait Tr{sup} {{ {msig}; }}", at.trim());
+            summary = format!("{attr} {}trait Tr{sup} {{ {msig};{} }}", at.trim(), if spec.dflt && !dynamic { " async fn keeps(&self, _g: Guard, (a, mut b): (u8, u8)) -> bool { .. } async fn boxed(&self, x: i32) -> Box<dyn Debug + Send> { Box::new(..) }" } else { "" });
         }
         Kind::ImplBlockDyn => {
             let lt = if lts.is_empty() { String::new() } else { "'a, ".to_string() };
@@ -302,7 +318,7 @@ pub fn gen_cases(t: &mut Tape) -> Vec<Case> {
     // `?Send` is meaningless together with async_trait (async_trait has its own `?Send` argument)
     let no_send = !matches!(kind, Kind::TraitDynAsyncTrait | Kind::ImplBlockDyn) && t.chance(1, 3);
     let arg_tys: Vec<&'static str> = (0..4).map(|_| *t.pick(&["i32", "u8", "bool", "String"])).collect();
-    let spec = Spec { arg_tys, kind, ret, no_send, n_args: t.range(1, 4), concrete, at_spelling: t.choose(4), no_deps };
+    let spec = Spec { arg_tys, kind, ret, no_send, n_args: t.range(1, 4), concrete, at_spelling: t.choose(4), no_deps, dflt: kind == Kind::TraitStatic && t.chance(1, 3) };
     let mut classes: Vec<&'static str> = vec![match kind {
         Kind::Fn => "fn",
         Kind::Mod => "mod",
@@ -321,6 +337,9 @@ pub fn gen_cases(t: &mut Tape) -> Vec<Case> {
     });
     if no_deps {
         classes.push("no_deps");
+    }
+    if spec.dflt {
+        classes.push("defaulted_async_methods(unused_argument_with_destructor,unsized_coercion)");
     }
     if no_send {
         classes.push("?Send");
